@@ -26,7 +26,12 @@ class Module:
             raise SourceError(f'file {relpath} not found under {REPO}')
         with open(path) as f:
             self.text = f.read()
-        self.tree = ast.parse(self.text, filename=path)
+        self.pyx_info, self.pyx_failed = {}, {}
+        if relpath.endswith('.pyx'):
+            from . import pyx
+            self.tree, self.pyx_info, self.pyx_failed = pyx.module_ast(self.text)
+        else:
+            self.tree = ast.parse(self.text, filename=path)
         self.functions = {}
         self.classes = {}
         self.assigns = {}   # module-level simple assignments: name -> ast expr
@@ -158,7 +163,8 @@ def locate(target):
     parts = qual.split('.')
     if len(parts) == 1:
         if parts[0] not in mod.functions:
-            raise SourceError(f'function {qual} not found in {relpath}')
+            why = mod.pyx_failed.get(parts[0])
+            raise SourceError(f'function {qual} not found in {relpath}' + (f' (not extractable from the .pyx: {why})' if why else ''))
         return mod, None, mod.functions[parts[0]]
     cname, mname = parts
     if cname not in mod.classes:
@@ -215,4 +221,4 @@ def normal_form(funcdef):
     node = n.visit(node)
     ast.fix_missing_locations(node)
     text = ast.unparse(node)
-    return text, hashlib.sha256(text.encode()).hexdigest(), sorted(set(n.dropped))
+    return text, hashlib.sha256(text.encode()).hexdigest(), sorted(set(n.dropped) | set(getattr(funcdef, '_pyx_dropped', [])))
